@@ -16,7 +16,7 @@ Fixpoint replay_C11 (st : ostate) (ops : list sop) (blocks : list (Z * replica))
   | [], [] => true
   | o :: ops', (_, r) :: blocks' =>
       let st' := observe (op_peer o) r st in
-      stays_deleted (get_seen (op_peer o) st') r && replay_C11 st' ops' blocks'
+      stays_deleted (get_seen (op_peer o) st') r && refs_stay_deleted (get_eseen (op_peer o) st') r && replay_C11 st' ops' blocks'
   | _, _ => false
   end.
 Fixpoint final_state (st : ostate) (ops : list sop) (blocks : list (Z * replica)) : ostate :=
@@ -31,7 +31,9 @@ Definition quiet_blocks (k : nat) (blocks : list (Z * replica)) : bool :=
    record any peer has shown is present on every peer, and no peer shows a row at or below it *)
 Definition everywhere (st : ostate) : bool :=
   let all := concat (o_seen st) in
-  forallb (fun r => tombs_subset all (tombs r) && stays_deleted all r) (o_sys st).
+  let eall := concat (o_eseen st) in
+  forallb (fun r => tombs_subset all (tombs r) && stays_deleted all r &&
+                    forallb (has_etomb (etombs r)) eall && refs_stay_deleted eall r) (o_sys st).
 
 Definition spec_C11 (c : c11case) (obs : list Z) : bool :=
   match dec_steps (length (c11_ops c)) obs with
@@ -45,8 +47,12 @@ Definition spec_C11 (c : c11case) (obs : list Z) : bool :=
 
 (* known-finding classes: none is open any more (known_findings.d/C11.json: class 1, a pull storing a
    row at or below a deletion record its receiver holds, fixed by ca69f52; class 3, two deletion
-   records of one row in one answer collapsing to one, fixed by bb1bffb) *)
-Definition known_C11 (c : c11case) : list Z := [].
+   records of one row in one answer collapsing to one, fixed by bb1bffb);
+   4 (open)  a reference deletion record removes only the exactly named version of the reference: an
+             older version of the same reference (added concurrently on another peer) stays visible on a
+             peer that holds the record *)
+Definition known_C11 (c : c11case) : list Z :=
+  if run_refs_coherent (init_sys (c11_n c)) (c11_ops c) then [] else [4].
 
 (* the envelope of C11_holds, decided on the model's run: every creation uses an id the peer does
    not know yet (the code draws fresh uids) and no local update carries a clock that is behind the
